@@ -198,6 +198,11 @@ unsigned FilePersister::get(const unsigned from, const unsigned to, Session& ses
 				break;
 			}
 
+			if (itr->second._size < 0 || itr->second._size > static_cast<int32_t>(sizeof(buff)))
+			{
+				glout_error << "Error: message record for seqnum " << itr->first << " is too large in: " << _dbFname;
+				break;
+			}
 			if (read (_fod, buff, itr->second._size) != itr->second._size)
 			{
 				glout_error << "Error: could not read message record for seqnum " << itr->first << " from: " << _dbFname;
@@ -254,6 +259,11 @@ bool FilePersister::put(const unsigned seqnum, const f8String& what)
 	if (_index.find(seqnum) != _index.end())
 	{
 		glout_error << "Error: seqnum " << seqnum << " already persisted in: " << _dbIname;
+		return false;
+	}
+	if (what.size() > FIX8_MAX_MSG_LENGTH) // get() reads records into a buffer of this size
+	{
+		glout_error << "Error: record for seqnum " << seqnum << " is too large (" << what.size() << ") for: " << _dbFname;
 		return false;
 	}
 	if (lseek(_iod, 0, SEEK_END) < 0)
@@ -325,6 +335,11 @@ bool FilePersister::get(const unsigned seqnum, f8String& to) const
 	}
 
 	char buff[FIX8_MAX_MSG_LENGTH];
+	if (itr->second._size < 0 || itr->second._size > static_cast<int32_t>(sizeof(buff)))
+	{
+		glout_error << "Error: message record for seqnum " << seqnum << " is too large in: " << _dbFname;
+		return false;
+	}
 	if (read (_fod, buff, itr->second._size) != itr->second._size)
 	{
 		glout_error << "Error: could not read message record for seqnum " << seqnum << " from: " << _dbFname;
